@@ -3,7 +3,8 @@
 # License: GNU GPL v2 (see LICENSE file for details).
 
 from typing import List, cast
-from ..ast import Script, FunctionDef, Node, LocalVariable, ParameterName
+from ..ast import Script, FunctionDef, Node, LocalVariable, ParameterName, \
+    GlobalVariable
 from ..model import Context, Header
 from ..util import escape_string, unpack_float80, get_keys, get_class_name, \
     vsprintf, get_encoding
@@ -66,6 +67,7 @@ def parse_lrcr_file_data(fdata: bytes, name_list: List[str]) -> Script:
     
     # Read the global vars record blocks
     script.global_vars = parse_lrcr_grb(fdata, header, name_list)
+    context.global_vars = script.global_vars
     
     # Read the function record blocks once to get the local function names
     parse_frb_func_names(fdata, header, context)
@@ -216,6 +218,17 @@ def parse_frb(fdata: bytes, header: Header, context: Context, script: Script):
                 fn.parameters.append(
                     ParameterName('me', idxl))
             
+        # Read the global variable names record block of the handler (the
+        # 'global' lines inside it): count (C) entries at the offset that
+        # follows it in the record
+        for nl in range(0, count_c):
+            idxl = 2*nl + unknown_rb3
+            n = struct.unpack(lsrc_bit_order+"h", fdata[idxl:idxl+2])[0]
+            if n >= 0 and n < len(context.name_list):
+                gvar = GlobalVariable(context.name_list[n], idxl)
+                if not gvar in fn.global_vars:
+                    fn.global_vars.append(gvar)
+
         parse_opcodes(fdata, context, bc_off, bc_length, fn)
         script.functions.append(fn)
         
